@@ -18,12 +18,18 @@ Definition no_left_rec : bool :=
   forallb (fun m => match m_deco m with DMemoLeftRec => false | _ => true end) (i_meths M).
 Hypothesis Hnolr : no_left_rec = true.
 
-(* t' follows s': same position, nothing new fetched, flag off *)
-Definition follows (s' t t' : pstate) : Prop := pos t' = pos s' /\ fetched t' = fetched t /\ invalid t' = false.
-Definition twin (s s' t : pstate) : Prop := pos t = pos s /\ invalid t = false /\ fetched s' <= fetched t.
+(* the error-mode flag the run starts with: any value if no method is a *_without_invalid method, off otherwise *)
+Variable b : bool.
+Definition no_wi : bool := forallb (fun m => negb (m_without_invalid m)) (i_meths M).
+Definition wi_ok (m : meth) : Prop := b = false \/ m_without_invalid m = false.
+Hypothesis Hb : b = false \/ no_wi = true.
 
-Definition stable (f : pstate -> R) : Prop := forall s v s', f s = (Ok v, s') -> invalid s = false ->
-  invalid s' = false /\ fetched s <= fetched s' /\
+(* t' follows s': same position, nothing new fetched, flag off *)
+Definition follows (s' t t' : pstate) : Prop := pos t' = pos s' /\ fetched t' = fetched t /\ invalid t' = b.
+Definition twin (s s' t : pstate) : Prop := pos t = pos s /\ invalid t = b /\ fetched s' <= fetched t.
+
+Definition stable (f : pstate -> R) : Prop := forall s v s', f s = (Ok v, s') -> invalid s = b ->
+  invalid s' = b /\ fetched s <= fetched s' /\
   forall t, twin s s' t -> exists t', f t = (Ok v, t') /\ follows s' t t'.
 
 Lemma peek_some s tk s0 : peek toks s = (Some tk, s0) ->
@@ -106,8 +112,8 @@ Qed.
 
 Notation rconjs := (run_conjs K toks false false M exact_types token_dict rec).
 
-Lemma run_conjs_stable cs : forall e s v e' s', rconjs cs e s = (Ok v, e', s') -> invalid s = false ->
-  invalid s' = false /\ fetched s <= fetched s' /\
+Lemma run_conjs_stable cs : forall e s v e' s', rconjs cs e s = (Ok v, e', s') -> invalid s = b ->
+  invalid s' = b /\ fetched s <= fetched s' /\
   forall t, twin s s' t -> exists t', rconjs cs e t = (Ok v, e', t') /\ follows s' t t'.
 Proof.
   induction cs as [|c cs IHc]; intros e s v e' s' H Hi; cbn [run_conjs] in *.
@@ -130,20 +136,24 @@ Notation ralts := (run_alts K toks false false M aeval exact_types token_dict re
 Lemma last_tok_pos s t : pos t = pos s -> last_tok K toks t = last_tok K toks s.
 Proof. unfold last_tok. intros ->. reflexivity. Qed.
 
-Lemma run_alts_stable m mark start_tok alts : forall e0 s v s', ralts m mark start_tok false alts e0 s = (Ok v, s') ->
-  invalid s = false ->
-  invalid s' = false /\ fetched s <= fetched s' /\
-  forall t, twin s s' t -> exists t', ralts m mark start_tok false alts e0 t = (Ok v, t') /\ follows s' t t'.
+Lemma restore_flag m (st : pstate) : wi_ok m -> invalid st = b ->
+  invalid (if m_without_invalid m then with_invalid st b else st) = b.
+Proof. intros _ H. destruct (m_without_invalid m); [reflexivity|exact H]. Qed.
+
+Lemma run_alts_stable m mark start_tok alts : wi_ok m -> forall e0 s v s', ralts m mark start_tok b alts e0 s = (Ok v, s') ->
+  invalid s = b ->
+  invalid s' = b /\ fetched s <= fetched s' /\
+  forall t, twin s s' t -> exists t', ralts m mark start_tok b alts e0 t = (Ok v, t') /\ follows s' t t'.
 Proof.
-  induction alts as [|a alts IHa]; intros e0 s v s' H Hi; cbn [run_alts] in *.
-  - injection H as <- <-. split; [destruct (m_without_invalid m); [reflexivity|exact Hi]|].
+  intros Hm. induction alts as [|a alts IHa]; intros e0 s v s' H Hi; cbn [run_alts] in *.
+  - injection H as <- <-. split; [apply restore_flag; assumption|].
     split; [destruct (m_without_invalid m); cbn; lia|].
     intros t (Hp & Hit & Hft). eexists. split; [reflexivity|]. unfold follows.
     destruct (m_without_invalid m); cbn in *; auto.
-  - rewrite Hi in H. cbn [negb] in H. rewrite andb_true_r in H.
-    assert (Hguard : forall t, invalid t = false -> a_guard a && negb (invalid t) = a_guard a)
-      by (intros t0 ->; cbn; apply andb_true_r).
-    destruct (a_guard a) eqn:G.
+  - rewrite Hi in H.
+    assert (Hguard : forall t, invalid t = b -> a_guard a && negb (invalid t) = a_guard a && negb b)
+      by (intros t0 ->; reflexivity).
+    destruct (a_guard a && negb b) eqn:G.
     + destruct (IHa _ _ _ _ H Hi) as (G1 & G2 & G3). split; [exact G1|]. split; [exact G2|].
       intros t Ht. destruct (G3 (with_pos t mark)) as (t' & E' & Hfo).
       { destruct Ht as (Hp & Hit & Hft). repeat split; auto. }
@@ -153,7 +163,7 @@ Proof.
       destruct (truthy w) eqn:Tw.
       * destruct (a_locations a && _) eqn:L; [discriminate|].
         destruct (aeval (a_action a) _) as [u|] eqn:A; [|discriminate]. injection H as <- <-.
-        split; [destruct (m_without_invalid m); [reflexivity|exact H1]|].
+        split; [apply restore_flag; assumption|].
         split; [destruct (m_without_invalid m); cbn; exact H2|].
         intros t Ht.
         assert (Ht1 : twin s s1 t).
@@ -163,7 +173,7 @@ Proof.
         eexists. split; [reflexivity|]. unfold follows. destruct (m_without_invalid m); cbn; auto.
       * destruct (a_has_cut a && _) eqn:C.
         -- injection H as <- <-.
-           split; [destruct (m_without_invalid m); [reflexivity|exact H1]|].
+           split; [apply restore_flag; assumption|].
            split; [destruct (m_without_invalid m); cbn; exact H2|].
            intros t Ht.
            assert (Ht1 : twin s s1 t).
@@ -185,15 +195,15 @@ Qed.
 Notation rloop := (run_loop K toks false false M aeval exact_types token_dict rec).
 
 Lemma run_loop_stable m a : forall fuel mark start_tok children e0 s v s',
-  rloop fuel m a mark start_tok children e0 s = (Ok v, s') -> invalid s = false ->
-  invalid s' = false /\ fetched s <= fetched s' /\
+  rloop fuel m a mark start_tok children e0 s = (Ok v, s') -> invalid s = b ->
+  invalid s' = b /\ fetched s <= fetched s' /\
   forall t, twin s s' t -> exists t', rloop fuel m a mark start_tok children e0 t = (Ok v, t') /\ follows s' t t'.
 Proof.
   induction fuel as [|f IHf]; intros mark start_tok children e0 s v s' H Hi; cbn [run_loop] in *; [discriminate|].
-  rewrite Hi in H. cbn [negb] in H. rewrite andb_true_r in H.
-  assert (Hguard : forall t, invalid t = false -> a_guard a && negb (invalid t) = a_guard a)
-    by (intros t0 ->; cbn; apply andb_true_r).
-  destruct (a_guard a) eqn:G.
+  rewrite Hi in H.
+  assert (Hguard : forall t, invalid t = b -> a_guard a && negb (invalid t) = a_guard a && negb b)
+    by (intros t0 ->; reflexivity).
+  destruct (a_guard a && negb b) eqn:G.
   - injection H as <- <-. split; [exact Hi|]. split; [cbn; lia|]. intros t (Hp & Hit & Hft).
     rewrite (Hguard t Hit). eexists. split; [reflexivity|]. unfold follows. cbn. auto.
   - destruct (rconjs (a_conjs a) e0 s) as [[[w| |] e] s1] eqn:E; try discriminate.
@@ -216,62 +226,62 @@ Proof.
         unfold follows; cbn; auto.
 Qed.
 
-Lemma run_body_stable fuel m : stable (run_body K toks false false M aeval exact_types token_dict rec fuel m).
+(* entering a method: a *_without_invalid method clears the flag -- which, by [wi_ok], is already off *)
+Lemma enter_flag m (st : pstate) : wi_ok m -> invalid st = b ->
+  (if m_without_invalid m then with_invalid st false else st) = st \/ m_without_invalid m = false /\ True.
 Proof.
-  intros s v s' H Hi. unfold run_body in *. rewrite Hi in H.
-  set (st0 := if m_without_invalid m then with_invalid s false else s) in *.
-  assert (Hi0 : invalid st0 = false) by (subst st0; destruct (m_without_invalid m); [reflexivity|exact Hi]).
-  assert (Hf0 : fetched st0 = fetched s) by (subst st0; destruct (m_without_invalid m); reflexivity).
-  assert (Hp0 : pos st0 = pos s) by (subst st0; destruct (m_without_invalid m); reflexivity).
-  assert (Hgo : forall start_tok st1 , invalid st1 = false ->
+  intros [Hb0|Hm] Hi.
+  - left. destruct (m_without_invalid m); [|reflexivity]. destruct st as [p0 f0 c0 i0 e0]; cbn in *. rewrite Hi, Hb0. reflexivity.
+  - left. rewrite Hm. reflexivity.
+Qed.
+
+Lemma run_body_stable fuel m : wi_ok m -> stable (run_body K toks false false M aeval exact_types token_dict rec fuel m).
+Proof.
+  intros Hm s v s' H Hi. unfold run_body in *. rewrite Hi in H.
+  assert (Hent : forall st, invalid st = b -> (if m_without_invalid m then with_invalid st false else st) = st).
+  { intros st Hst. destruct (enter_flag m st Hm Hst) as [E|[E _]]; [exact E|rewrite E; reflexivity]. }
+  rewrite (Hent s Hi) in H.
+  assert (Hgo : forall start_tok st1 , invalid st1 = b ->
     (if m_loop m
      then match m_alts m with
-          | [a] => match rloop fuel m a (pos st0) start_tok [] [] st1 with
-                   | (Ok v, st2) => (Ok (loop_ret m v), if m_without_invalid m then with_invalid st2 false else st2)
+          | [a] => match rloop fuel m a (pos s) start_tok [] [] st1 with
+                   | (Ok v, st2) => (Ok (loop_ret m v), if m_without_invalid m then with_invalid st2 b else st2)
                    | other => other end
           | _ => (Raise XAssertion, st1) end
-     else ralts m (pos st0) start_tok false (m_alts m) [] st1) = (Ok v, s') ->
-    invalid s' = false /\ fetched st1 <= fetched s' /\
+     else ralts m (pos s) start_tok b (m_alts m) [] st1) = (Ok v, s') ->
+    invalid s' = b /\ fetched st1 <= fetched s' /\
     forall t1, twin st1 s' t1 -> exists t', 
     (if m_loop m
      then match m_alts m with
-          | [a] => match rloop fuel m a (pos st0) start_tok [] [] t1 with
-                   | (Ok v, st2) => (Ok (loop_ret m v), if m_without_invalid m then with_invalid st2 false else st2)
+          | [a] => match rloop fuel m a (pos s) start_tok [] [] t1 with
+                   | (Ok v, st2) => (Ok (loop_ret m v), if m_without_invalid m then with_invalid st2 b else st2)
                    | other => other end
           | _ => (Raise XAssertion, t1) end
-     else ralts m (pos st0) start_tok false (m_alts m) [] t1) = (Ok v, t') /\ follows s' t1 t').
+     else ralts m (pos s) start_tok b (m_alts m) [] t1) = (Ok v, t') /\ follows s' t1 t').
   { intros start_tok st1 Hi1 Hr. destruct (m_loop m).
     - destruct (m_alts m) as [|a [|a2 rest]]; try discriminate.
-      destruct (rloop fuel m a (pos st0) start_tok [] [] st1) as [[w| |] s2] eqn:E; try discriminate.
+      destruct (rloop fuel m a (pos s) start_tok [] [] st1) as [[w| |] s2] eqn:E; try discriminate.
       injection Hr as <- <-. destruct (run_loop_stable _ _ _ _ _ _ _ _ _ _ E Hi1) as (G1 & G2 & G3).
-      split; [destruct (m_without_invalid m); [reflexivity|exact G1]|].
+      split; [apply restore_flag; assumption|].
       split; [destruct (m_without_invalid m); cbn; exact G2|].
       intros t1 Ht1. destruct (G3 t1) as (t' & E' & Hp' & Hf' & Hi').
       { destruct Ht1 as (Hp & Hit & Hft). repeat split; auto. destruct (m_without_invalid m); cbn in Hft; exact Hft. }
       rewrite E'. eexists. split; [reflexivity|]. unfold follows. destruct (m_without_invalid m); cbn; auto.
-    - exact (run_alts_stable _ _ _ _ _ _ _ _ Hr Hi1). }
+    - exact (run_alts_stable _ _ _ _ Hm _ _ _ _ Hr Hi1). }
   destruct (m_locations m).
-  - destruct (peek toks st0) as [[tk|] s1] eqn:E; [|discriminate].
+  - destruct (peek toks s) as [[tk|] s1] eqn:E; [|discriminate].
     destruct (peek_some _ _ _ E) as (Hp1 & Hi1 & Hf1 & Hn).
     destruct (Hgo (Some tk) s1 ltac:(congruence) H) as (G1 & G2 & G3).
     split; [exact G1|]. split; [lia|].
-    intros t (Hp & Hit & Hft). rewrite Hit.
-    set (t0 := if m_without_invalid m then with_invalid t false else t).
-    assert (Hpt0 : pos t0 = pos st0) by (subst t0; destruct (m_without_invalid m); cbn; congruence).
-    assert (Hft0 : fetched t0 = fetched t) by (subst t0; destruct (m_without_invalid m); reflexivity).
-    assert (Hit0 : invalid t0 = false) by (subst t0; destruct (m_without_invalid m); [reflexivity|exact Hit]).
-    destruct (peek_twin _ _ _ t0 E Hpt0 ltac:(lia)) as (t1 & E1 & Hpt1 & Hft1 & Hit1).
-    rewrite E1. rewrite Hpt0.
+    intros t (Hp & Hit & Hft). rewrite Hit. rewrite (Hent t Hit).
+    destruct (peek_twin _ _ _ t E Hp ltac:(lia)) as (t1 & E1 & Hpt1 & Hft1 & Hit1).
+    rewrite E1. rewrite Hp.
     destruct (G3 t1) as (t' & E' & Hp' & Hf' & Hi').
     { repeat split; [congruence|congruence|lia]. }
     exists t'. split; [exact E'|]. unfold follows. repeat split; congruence.
-  - destruct (Hgo None st0 Hi0 H) as (G1 & G2 & G3). split; [exact G1|]. split; [lia|].
-    intros t (Hp & Hit & Hft). rewrite Hit.
-    set (t0 := if m_without_invalid m then with_invalid t false else t).
-    assert (Hpt0 : pos t0 = pos st0) by (subst t0; destruct (m_without_invalid m); cbn; congruence).
-    assert (Hft0 : fetched t0 = fetched t) by (subst t0; destruct (m_without_invalid m); reflexivity).
-    assert (Hit0 : invalid t0 = false) by (subst t0; destruct (m_without_invalid m); [reflexivity|exact Hit]).
-    rewrite Hpt0. destruct (G3 t0) as (t' & E' & Hp' & Hf' & Hi').
+  - destruct (Hgo None s Hi H) as (G1 & G2 & G3). split; [exact G1|]. split; [lia|].
+    intros t (Hp & Hit & Hft). rewrite Hit. rewrite (Hent t Hit).
+    rewrite Hp. destruct (G3 t) as (t' & E' & Hp' & Hf' & Hi').
     { repeat split; [congruence|congruence|lia]. }
     exists t'. split; [exact E'|]. unfold follows. repeat split; congruence.
 Qed.
@@ -283,14 +293,20 @@ Proof.
   rewrite forallb_forall in Hnolr. specialize (Hnolr _ Hin). intros E. rewrite E in Hnolr. discriminate.
 Qed.
 
+Lemma find_meth_wi n m : find_meth M n = Some m -> wi_ok m.
+Proof.
+  unfold find_meth. intros H. apply find_some in H as [Hin _]. destruct Hb as [H0|H1]; [left; exact H0|right].
+  unfold no_wi in H1. rewrite forallb_forall in H1. specialize (H1 _ Hin). destruct (m_without_invalid m); [discriminate|reflexivity].
+Qed.
+
 Lemma run_meth_stable fuel rec : (forall n, stable (rec n)) ->
   forall n, stable (run_meth K toks false false M aeval exact_types token_dict fuel rec n).
 Proof.
   intros Hrec n. unfold run_meth. destruct (find_meth M n) as [m|] eqn:F; [|intros s v s' H; discriminate].
-  pose proof (find_meth_nolr _ _ F) as Hd. apply logged_stable.
+  pose proof (find_meth_nolr _ _ F) as Hd. pose proof (find_meth_wi _ _ F) as Hw. apply logged_stable.
   destruct (m_deco m); [|contradiction|].
-  - apply memoize_off_stable. apply run_body_stable. exact Hrec.
-  - apply logger_off_stable. apply run_body_stable. exact Hrec.
+  - apply memoize_off_stable. apply run_body_stable; [exact Hrec|exact Hw].
+  - apply logger_off_stable. apply run_body_stable; [exact Hrec|exact Hw].
 Qed.
 
 Theorem run_stable fuel : forall n, stable (run K toks false false M aeval exact_types token_dict fuel n).
